@@ -2,7 +2,9 @@ package ast
 
 import (
 	"fmt"
+	"maps"
 	"os"
+	"slices"
 	"sync"
 
 	"github.com/dominikbraun/graph"
@@ -46,7 +48,8 @@ func (tfg *TaskfileGraph) Visualize(filename string) error {
 }
 
 func (tfg *TaskfileGraph) Merge() (*Taskfile, error) {
-	hashes, err := graph.TopologicalSort(tfg.Graph)
+	// Use a stable sort so that Taskfiles are always merged in the same order
+	hashes, err := graph.StableTopologicalSort(tfg.Graph, func(a, b string) bool { return a < b })
 	if err != nil {
 		return nil, err
 	}
@@ -71,7 +74,10 @@ func (tfg *TaskfileGraph) Merge() (*Taskfile, error) {
 		var g errgroup.Group
 
 		// Loop over edge that leads to a vertex that includes the current vertex
-		for _, edge := range predecessorMap[hash] {
+		// (in a stable order, so that the first error reported is always the same)
+		predecessors := predecessorMap[hash]
+		for _, source := range slices.Sorted(maps.Keys(predecessors)) {
+			edge := predecessors[source]
 
 			// Start a goroutine to process each included Taskfile
 			g.Go(func() error {
